@@ -570,8 +570,10 @@ def off_axis_conic_sigma_der(c, kappa, r, t, dx, dy=0):
     # d/dr first
     phi_kernel = (1 + kappa) * csq * aggregate_term
     phi = np.sqrt(1 - phi_kernel)
+    # 1/sigma = notquitephi / phi with the same radicals as off_axis_conic_sigma:
+    # phi^2 = 1 - (1+kappa) c^2 A,  notquitephi^2 = 1 - kappa c^2 A
     notquitephi_kernel = kappa * csq * aggregate_term
-    notquitephi = np.sqrt(1 + notquitephi_kernel)
+    notquitephi = np.sqrt(1 - notquitephi_kernel)
 
     num = csq * (1 + kappa) * ddr_oblique * notquitephi
     den = 2 * (1 - phi_kernel) ** (3/2)
@@ -580,17 +582,17 @@ def off_axis_conic_sigma_der(c, kappa, r, t, dx, dy=0):
     num = csq * kappa * ddr_oblique
     den = 2 * phi * notquitephi
     term2 = num / den
-    dr = term1 + term2
+    dr = term1 - term2
 
     # d/dt
     num = csq * (1+kappa) * ddt_oblique_ * notquitephi
-    den = (1 - phi_kernel) ** (3/2)  # phi^3?
+    den = (1 - phi_kernel) ** (3/2)  # phi^3
     term1 = num/den
 
     num = csq * kappa * ddt_oblique_
     den = phi * notquitephi
     term2 = num / den
-    dt = term1 + term2  # minus in writing, but sine/cosine
+    dt = term1 - term2
     return dr, dt
 
 
